@@ -13,8 +13,8 @@ open Rare.C07 Rare.C13
 What the final render's footer, the histogram's rows, `--csv` and the exit status are computed from.  The drawing of the
 rows (padding, bars, colours) is C14/C20; here is WHICH rows, numbers and counters reach the screen. -/
 
-/-- `helpers.BuildSorter(fullName)` for the names whose comparator is a pure function of the two rows: `text` and `value`
-with any modifier (C13 `parseSort` / `lookupMode` / `modeSorter`, `Reverse`).  `lowerK` is C13's look-up equivalent of
+/-- `helpers.BuildSorter(fullName)` for the names whose comparator is a pure function of the two rows: `text`, `value` and
+`numeric` (`ByNameSmart` with the real `strconv.ParseFloat`: C13 `byNameSmartF`) with any modifier (C13 `parseSort` / `lookupMode` / `modeSorter`, `Reverse`).  `lowerK` is C13's look-up equivalent of
 `strings.ToLower` for ALL byte strings (`Props/C13 to_lower_lookup`): sort names are case-insensitive. -/
 def pureSortLess (fullName : Bytes) : Option (NV → NV → Bool) :=
   match parseSort lowerK fullName with
@@ -25,6 +25,8 @@ def pureSortLess (fullName : Bytes) : Option (NV → NV → Bool) :=
       some fun a b => ((if rev then C13.reverse (valueNilSorter (pureCmp byName)) else valueNilSorter (pureCmp byName)) () a b).1
     | some .value =>
       some fun a b => ((if rev then C13.reverse (valueSorterEx (pureCmp byName)) else valueSorterEx (pureCmp byName)) () a b).1
+    | some .numeric =>
+      some fun a b => ((if rev then C13.reverse (valueNilSorter (pureCmp byNameSmartF)) else valueNilSorter (pureCmp byNameSmartF)) () a b).1
     | _ => none
 
 /-- `helpers.SortsByValue(fullName)`: `name, _, err := parseSort(fullName); return err == nil && name == "value"` – the
